@@ -6,7 +6,7 @@ set -u
 W=$(mktemp -d /tmp/seataglobal.XXXX); cp "$(dirname "$0")"/../specs/SeataGlobal* "$W"; cd "$W"
 JAR=/opt/veriftools/tla/tla2tools.jar:/opt/veriftools/tla/CommunityModules-deps.jar
 rc=0
-for cfg in SeataGlobal_MC.cfg SeataGlobal_MC_Foreign.cfg SeataGlobal_MC_XA.cfg; do
+for cfg in SeataGlobal_MC.cfg SeataGlobal_MC_Foreign.cfg SeataGlobal_MC_XA.cfg SeataGlobal_MC_Reads.cfg; do
   out=$(timeout 3000 java -XX:+UseParallelGC -cp $JAR tlc2.TLC -workers ${WORKERS:-12} -metadir $W/m -config $cfg SeataGlobal.tla 2>&1); rm -rf $W/m
   if echo "$out" | grep -q "No error has been found"; then echo "PASS $cfg: $(echo "$out" | grep 'distinct states found' | tail -1)"; else echo "FAIL $cfg"; echo "$out" | tail -20; rc=1; fi
 done
